@@ -39,6 +39,10 @@ var pathRelTable = map[string][]pathRel{
 		{alts: []string{"totalLoad = quickflowConstituent + slowflowConstituent"}, note: "total = quick + slow"},
 		{alts: []string{"quickflowConstituent = hillslopeContribution + gullyContribution"}, note: "quick load = hillslope + gully contribution"},
 		{alts: []string{"slowflowConstituent = 0.001*slowflow*nutrientDWC"}, note: "dry-weather load is linear in flow and concentration (mg/L → kg/m³)"},
+		{alts: []string{"hillslopeContribution = 0.01*fineSedModelFineSheetGeneratedKg*nutSurfSoilConc*Nutrient_Enrichment_Ratio*hillDeliveryRatio + 0.01*fineSedModelCoarseSheetGeneratedKg*nutSurfSoilConc*Nutrient_Enrichment_Ratio*hillDeliveryRatio"},
+			note: "delivered hillslope nutrient = sheet erosion (fine + coarse) × soil concentration × enrichment × delivery ratio (%), on either branch of the enrichment flag"},
+		{alts: []string{"gullyContribution = 0.01*fineSedModelFineGullyGeneratedKg*nutSubSoilConc*Nutrient_Enrichment_Ratio_Gully*gullyDeliveryRatio + 0.01*fineSedModelCoarseGullyGeneratedKg*nutSubSoilConc*Nutrient_Enrichment_Ratio_Gully*gullyDeliveryRatio"},
+			note: "delivered gully nutrient = gully erosion (fine + coarse) × subsoil concentration × enrichment × delivery ratio (%), on either branch of the enrichment flag"},
 	},
 	"DynamicSednetGully": {
 		{alts: []string{"fineLoad = 0.01*generatedFine*sdrFine"}, note: "delivered fine load = generated × delivery ratio"},
